@@ -212,7 +212,11 @@ def run(ck: Check) -> int:
                                          'wcmatch/_wcmatch.py:212-231'))
         # ---------------- the property: glob set vs REALPATH-match set
         S1 = {strip(p) for p in res}
-        universe = sorted({strip(e) for e in t.entries} | S1)
+        # existing paths reached THROUGH symlinked directories belong to the universe as well (a written
+        # segment follows links): added after seeded change C04a (dir_fd + O_NOFOLLOW emptied `ln/*`)
+        through = {strip(x) for x in cands if not x.startswith(('/', './')) and x not in ('.', '..') and 'nope' not in x
+                   and os.path.lexists(os.path.join(t.root, x))}
+        universe = sorted({strip(e) for e in t.entries} | S1 | through)
         rs2, bits2 = K.run_real_match(G, t, universe, c.pats, fl, c.exclude, 'globfilter', c.mode)
         if rs2 != 'ok':
             return
